@@ -11,27 +11,27 @@ import (
 func init() { register("C14", propC14) }
 
 type resetSpec struct {
-	A, B        epCfg
-	SIDs        []uint16
-	Sizes       []int // messages written by A before Close (per stream)
-	Unordered   bool
-	LateReader  bool // B reads only after the reset has been processed
-	Cycles      int
-	Faults      faultSet
-	SSNStart    uint16 // first cycle: pre-set sequence cursors (wrap coverage)
-	MIDStart    uint32
-	BackSizes   []int // messages B writes back before closing its direction
-	CloseGap    time.Duration // pause between the Close calls of successive streams (separate RECONFIG packets)
-	MsgGap      time.Duration // pause between the writes of one stream
+	A, B       epCfg
+	SIDs       []uint16
+	Sizes      []int // messages written by A before Close (per stream)
+	Unordered  bool
+	LateReader bool // B reads only after the reset has been processed
+	Cycles     int
+	Faults     faultSet
+	SSNStart   uint16 // first cycle: pre-set sequence cursors (wrap coverage)
+	MIDStart   uint32
+	BackSizes  []int         // messages B writes back before closing its direction
+	CloseGap   time.Duration // pause between the Close calls of successive streams (separate RECONFIG packets)
+	MsgGap     time.Duration // pause between the writes of one stream
 	// EagerReopen: the next cycle starts as soon as the identifier is free on both sides (both
 	// readers saw end-of-stream), without waiting for the responses to the reset requests.
-	EagerReopen bool
+	EagerReopen   bool
 	CheckBuffered bool // C15: per-stream buffered amount must be zero after the reset
 }
 
 type resetObs struct {
-	got    [2]map[uint16][]rmsg
-	err    [2]map[uint16]error
+	got [2]map[uint16][]rmsg
+	err [2]map[uint16]error
 }
 
 func resetScenario(spec *resetSpec) *Scenario {
